@@ -201,6 +201,12 @@ def mapIdx {κ α} [BEq κ] (m : List (κ × α)) (k : κ) (site : String) : Res
   match m.find? (fun e => e.1 == k) with
   | some e => .ok e.2
   | none => .panic site
+/-- `map.entry(k).or_insert_with(..)`: the entry exists afterwards (appended with the default when absent) -/
+def mapEnsure {κ α} [BEq κ] (m : List (κ × α)) (k : κ) (d : α) : List (κ × α) :=
+  if m.any (fun e => e.1 == k) then m else m ++ [(k, d)]
+/-- update through the `&mut` reference an entry call returned -/
+def mapModify {κ α} [BEq κ] (m : List (κ × α)) (k : κ) (f : α → α) : List (κ × α) :=
+  m.map fun e => if e.1 == k then (e.1, f e.2) else e
 /-- `opt.map(|x| f(x))` with a closure that calls translated (monadic) code -/
 def optMapM {α β} (o : Option α) (f : α → Res β) : Res (Option β) :=
   match o with
